@@ -64,6 +64,16 @@ MUTANTS = [
     ('c14-decomposition-wrong-label', [('src/voronoi/convex_cell.rs', '            self.cur_vertex.dual[self.cur_tet_idx / 2],', '            self.cur_vertex.dual[self.cur_tet_idx % 3],')], {'C14': ['R5']}),
     ('c15-vertex-listed-twice-on-one-plane', [('src/voronoi/convex_cell.rs', '            face_vertex_connections[vertex.dual[2]].push(idx);', '            face_vertex_connections[vertex.dual[1]].push(idx);')], {'C15': ['R7']}),
     ('c15-face-offset-off-by-one', [('src/voronoi/convex_cell.rs', '                offset += face.vertex_count;', '                offset += face.vertex_count + 1;')], {'C15': ['R7']}),
+    ('c18-two-rotations-only', [('src/simple_cycle.rs', '        for i in 0..3 {\n            let j = (i + 1) % 3;', '        for i in 0..2 {\n            let j = (i + 1) % 3;')], {'C18': ['R1'], 'C01': ['R7']}),
+    ('c18-no-exchange-after-accept', [('src/voronoi/convex_cell.rs', '                        if idx > i {\n                            vertices.swap(i, idx);\n                        }\n                        break;', '                        break;')], {'C18': ['R2']}),
+    ('c18-scan-restarts-at-zero', [('src/voronoi/convex_cell.rs', '            let mut idx = i;\n            loop {', '            let mut idx = 0;\n            loop {')], {'C18': ['R2']}),
+    ('c18-scan-skips-on-ok', [('src/voronoi/convex_cell.rs', '                    Err(()) => idx += 1,\n                }', '                    Err(()) => idx += 2,\n                }')], {'C18': ['R2']}),
+    ('c18-partition-skips-exchanged-in-vertex', [('src/voronoi/convex_cell.rs', '                self.vertices.swap(i, num_v);\n            } else {\n                i += 1;\n            }', '                self.vertices.swap(i, num_v);\n            }\n            i += 1;')], {'C18': ['R3']}),
+    ('c18-partition-exchanges-with-wrong-slot', [('src/voronoi/convex_cell.rs', '                num_v -= 1;\n                num_r += 1;\n                self.vertices.swap(i, num_v);', '                self.vertices.swap(i, num_v - num_r - 1);\n                num_v -= 1;\n                num_r += 1;')], {'C18': ['R3']}),
+    ('c18-reset-one-node-short', [('src/simple_cycle.rs', '        for _ in 0..self.len {\n            next = self.ptrs[current];', '        for _ in 1..self.len {\n            next = self.ptrs[current];')], {'C18': ['R4']}),
+    ('c18-reset-reads-successor-after-clearing', [('src/simple_cycle.rs', '            next = self.ptrs[current];\n            self.ptrs[current] = current;\n            current = next;', '            self.ptrs[current] = current;\n            next = self.ptrs[current];\n            current = next;')], {'C18': ['R4']}),
+    ('c18-new-vertex-pair-reversed', [('src/voronoi/convex_cell.rs', '                self.vertices.push(Vertex::from_dual(\n                    cur,\n                    next,\n                    p_idx,', '                self.vertices.push(Vertex::from_dual(\n                    next,\n                    cur,\n                    p_idx,')], {'C18': ['R5'], 'C10': ['R6']}),
+    ('c18-grow-attaches-node-to-zero', [('src/simple_cycle.rs', '        self.ptrs.push(self.ptrs.len());', '        self.ptrs.push(0);')], {'C18': ['R4']}),
     ('c20-ring-thickness-global-min', [('src/space.rs', 'let min_dist_to_ring = dist_to_face + r as f64 * self.cells[0].width.min_element();', 'let min_dist_to_ring = dist_to_face + r as f64 * self.cells[0].width.max_element();')], {'C20': ['R2']}),
 ]
 
@@ -88,6 +98,12 @@ BENIGN = [
     ('b-clip-sign-via-comparison', [('src/voronoi/half_space.rs', '            clip.signum()', '            if clip > 0. { 1. } else { -1. }')]),
     ('b-volume-integral-local-var', [('src/voronoi/integrals.rs', '        self.volume += signed_volume_tet(v0, v1, v2, gen);\n    }', '        let dv = signed_volume_tet(v0, v1, v2, gen);\n        self.volume = self.volume + dv;\n    }')]),
     ('b-neighbour-ids-match', [('src/voronoi/voronoi_cell.rs', '            if face.is_periodic() || face.is_boundary() {\n                return None;\n            }', '            if face.shift().is_some() || face.right().is_none() {\n                return None;\n            }')]),
+    ('b-c18-exchange-unconditional', [('src/voronoi/convex_cell.rs', '                        if idx > i {\n                            vertices.swap(i, idx);\n                        }\n                        break;', '                        vertices.swap(i, idx);\n                        break;')]),
+    ('b-c18-rotation-indices-by-match', [('src/simple_cycle.rs', '            let j = (i + 1) % 3;\n            let k = (i + 2) % 3;', '            let (j, k) = match i {\n                0 => (1, 2),\n                1 => (2, 0),\n                _ => (0, 1),\n            };')]),
+    ('b-c18-scan-with-is-ok', [('src/voronoi/convex_cell.rs', '                match boundary.try_extend(vertex[0], vertex[1], vertex[2]) {\n                    Ok(()) => {\n                        if idx > i {\n                            vertices.swap(i, idx);\n                        }\n                        break;\n                    }\n                    Err(()) => idx += 1,\n                }', '                if boundary.try_extend(vertex[0], vertex[1], vertex[2]).is_ok() {\n                    if idx != i {\n                        vertices.swap(i, idx);\n                    }\n                    break;\n                }\n                idx += 1;')]),
+    ('b-c18-partition-loop-form', [('src/voronoi/convex_cell.rs', '        while i < num_v {\n            let mut clip = p.clip(self.vertices[i].loc);', '        loop {\n            if i >= num_v {\n                break;\n            }\n            let mut clip = p.clip(self.vertices[i].loc);')]),
+    ('b-c18-partition-counter-order', [('src/voronoi/convex_cell.rs', '                num_v -= 1;\n                num_r += 1;\n                self.vertices.swap(i, num_v);', '                num_r += 1;\n                self.vertices.swap(i, num_v - 1);\n                num_v -= 1;')]),
+    ('b-c18-reset-with-while', [('src/simple_cycle.rs', '        for _ in 0..self.len {\n            next = self.ptrs[current];\n            self.ptrs[current] = current;\n            current = next;\n        }', '        let mut remaining = self.len;\n        while remaining > 0 {\n            next = self.ptrs[current];\n            self.ptrs[current] = current;\n            current = next;\n            remaining -= 1;\n        }')]),
 ]
 
 
